@@ -5,8 +5,8 @@ branch added to the library is otherwise invisible to a sampled comparison: the 
 generated cases never enter the new code, and nothing disagrees.  An unreached new line is reported as a broken tie
 (`no-failing-input-found` unless the generated cases also find a failing input).
 
-Not counted: `raise` statements, logging / warning / print calls and `pass` (error branches for inputs outside the
-op language are unexecuted in the baseline as well)."""
+Not counted: `raise` statements, logging / warning / print calls, `pass`, `continue`, `break` and the bodies of `except`
+handlers (error branches for inputs outside the op language are unexecuted in the baseline as well)."""
 import ast
 import json
 import os
@@ -58,8 +58,8 @@ def stop():
 
 
 def _skippable(stmt):
-    if isinstance(stmt, (ast.Raise, ast.Pass)):
-        return True
+    if isinstance(stmt, (ast.Raise, ast.Pass, ast.Continue, ast.Break)):
+        return True          # continue / break often have no line event of their own (jump threading)
     if isinstance(stmt, ast.Expr) and isinstance(stmt.value, ast.Call):
         f = stmt.value.func
         name = ast.unparse(f)
@@ -81,9 +81,10 @@ def functions(path):
             if isinstance(ch, (ast.FunctionDef, ast.AsyncFunctionDef)):
                 q = prefix + ch.name
                 body = []
+                in_handler = {id(x) for h in ast.walk(ch) if isinstance(h, ast.ExceptHandler) for x in ast.walk(h)}
                 for st in ast.walk(ch):
                     if isinstance(st, ast.stmt) and st is not ch and not isinstance(st, (ast.FunctionDef, ast.ClassDef)) \
-                            and not _skippable(st):
+                            and not _skippable(st) and id(st) not in in_handler:      # except-bodies: error plumbing
                         # the statement's own first line (compound statements: their header)
                         body.append((st.lineno, " ".join(lines[st.lineno - 1].split())))
                 out[q] = sorted(set(body))
